@@ -1,28 +1,28 @@
 package props
 
 import (
-	"strings"
 	"time"
 
 	"jkverif/chain"
-
-	notiftypes "github.com/jackalLabs/canine-chain/v4/x/notifications/types"
 )
 
 func init() {
 	Register(&Prop{ID: "XPROBE", Title: "probe", Cases: func(string) int { return 1 }, Run: func(rc *RunCtx) {
-		c, _ := chain.New(chain.Config{Seed: 1, NAcc: 3})
+		c, _ := chain.New(chain.Config{Seed: 1, NAcc: 3, GovVotingSeconds: 10})
 		defer c.Close()
 		c.NextBlock(time.Second)
-		A := func(i int) string { return c.Accs[i].Bech }
-		r := c.DeliverAs(0, &notiftypes.MsgBlockSenders{Creator: A(0), ToBlock: []string{A(1)}})
-		rc.Logf("block: %d %s", r.Code, failLog(r))
-		r = c.DeliverAs(1, &notiftypes.MsgCreateNotification{Creator: A(1), To: A(0), Contents: "{}"})
-		rc.Logf("send lowercase: %d %s", r.Code, failLog(r))
-		r = c.DeliverAs(1, &notiftypes.MsgCreateNotification{Creator: strings.ToUpper(A(1)), To: A(0), Contents: "{}"})
-		rc.Logf("send UPPERCASE creator: %d %s", r.Code, failLog(r))
-		var resp notiftypes.QueryAllNotificationsByAddressResponse
-		c.GRPC("/canine_chain.notifications.Query/AllNotificationsByAddress", &notiftypes.QueryAllNotificationsByAddress{To: A(0)}, &resp)
-		rc.Logf("inbox of blocker: %v", resp.Notifications)
+		for _, kv := range [][3]string{{"jklmint", "MintDenom", `"!!"`}, {"storage", "CheckWindow", `"0"`}, {"storage", "ChunkSize", `"0"`}, {"storage", "ProofWindow", `"1"`}, {"jklmint", "StakerRatio", `"5000"`}} {
+			err := c.ParamChange(kv[0], kv[1], kv[2])
+			rc.Logf("%s/%s=%s -> %v", kv[0], kv[1], kv[2], err)
+			if c.Dead {
+				return
+			}
+			for i := 0; i < 3; i++ {
+				if _, err := c.NextBlock(time.Second); err != nil {
+					rc.Logf("block: %v", err)
+					return
+				}
+			}
+		}
 	}})
 }
